@@ -2,6 +2,7 @@
 from lib import cfg
 from rules import common
 
+CRATES = ("agdb",)
 EXPLANATION = (
     "Static analysis of the table and guard parts of the A*-style path search: (R17a) PathHandler::process maps "
     "Continue(add) to cost 1 + !add and Finish|Stop to cost 0 with flag = add (HIR match table + MIR arithmetic); (R17b) "
